@@ -452,10 +452,20 @@ Definition host_above (hp hpo : list N -> result host) (hd : host -> list N) : P
   (forall s h, hp s = Ok h -> forallb above_space (hd h) = true)
   /\ (forall s h, hpo s = Ok h -> forallb above_space (hd h) = true).
 
+(* the part of HostOK (C02_Reach.v) that the parser classes need: both host parsers are inverted by the
+   display, whose output is a host text, and the empty host is displayed as nothing *)
+Definition HostRT (hp hpo : list N -> result host) (hd : host -> list N) : Prop :=
+  (forall s h, hp s = Ok h -> h <> HDomain [] -> host_text_ok (hd h) /\ hp (hd h) = Ok h)
+  /\ (forall s h, hpo s = Ok h -> h <> HDomain [] -> host_text_ok (hd h) /\ hpo (hd h) = Ok h)
+  /\ hd (HDomain []) = [] /\ hpo [] = Ok (HDomain []).
+
+Lemma HostOK_RT hp hpo hd : HostOK hp hpo hd -> HostRT hp hpo hd.
+Proof. intros (H1 & H2 & _ & H4 & _ & H6). split; [exact H1|]. split; [exact H2|]. split; [exact H4 | exact H6]. Qed.
+
 Section HostPort.
 Variable hp hpo : list N -> result host.
 Variable hd : host -> list N.
-Hypothesis HOK : HostOK hp hpo hd.
+Hypothesis HOK : HostRT hp hpo hd.
 Hypothesis HAb : host_above hp hpo hd.
 Variable st : scheme_type.
 Hypothesis Hnf : st_is_file st = false.
@@ -469,7 +479,7 @@ Definition host_ok (h : host) : Prop :=
   \/ (h <> HDomain [] /\ host_text_ok (hd h) /\ hpx (hd h) = Ok h /\ forallb above_space (hd h) = true).
 
 Lemma hd_empty : hd (HDomain []) = [].
-Proof. destruct HOK as (_ & _ & _ & H & _). exact H. Qed.
+Proof. destruct HOK as (_ & _ & H & _). exact H. Qed.
 
 Lemma hpx_host_ok s h : hpx s = Ok h -> h <> HDomain [] -> host_ok h.
 Proof.
@@ -580,7 +590,7 @@ Proof.
   intros Hok Hemp HX. rewrite parse_host_unfold. destruct Hok as [[-> Hns]|(Hne & Ht & Hp & _)].
   - rewrite (Hemp eq_refl). rewrite hd_empty. cbn [port_text app]. rewrite host_scan_tail by exact HX.
     rewrite andb_true_r. assert (scheme_type_eqb st STSpecialNotFile = false) as E by (destruct st; [discriminate| discriminate |reflexivity]).
-    rewrite E. unfold hpx. rewrite Hns. destruct HOK as (_ & _ & _ & _ & _ & H6). rewrite H6. reflexivity.
+    rewrite E. unfold hpx. rewrite Hns. destruct HOK as (_ & _ & _ & H6). rewrite H6. reflexivity.
   - destruct Ht as (Ha & Hnn & Hs & Hat). rewrite (Hs sp (port_text pt ++ X) (port_text_head pt X HX)).
     destruct (hd h) as [|c0 t0] eqn:Ehd; [contradiction|]. rewrite andb_false_r.
     rewrite Hp. reflexivity.
